@@ -3,8 +3,10 @@ package checks
 import (
 	"context"
 	"fmt"
+	"github.com/risor-io/risor/importer"
 	"sort"
 	"strings"
+	"testing/fstest"
 	"time"
 
 	"github.com/risor-io/risor"
@@ -156,6 +158,7 @@ func genSession(g, f *sim.Stream, tier string) (pieces []*replPiece, finalExpr s
 		maxN = 30
 	}
 	stmts := cg.Program(g.Range(2, maxN))
+	stmts = c18Extras(g, stmts)
 	// partition into consecutive pieces
 	var cur []string
 	var curDefs [][]string
@@ -255,7 +258,18 @@ func genSession(g, f *sim.Stream, tier string) (pieces []*replPiece, finalExpr s
 		id := 9000 + i*10
 		fp := &replPiece{Stale: map[int]int{}}
 		later := laterDefs(pos)
-		switch f.Intn(12) {
+		switch f.Intn(14) {
+		case 12:
+			// the piece fails while a module it imports is being evaluated (the
+			// host makes the module body fail this once)
+			fp.Fault = "runtime"
+			fp.Src = fmt.Sprintf("mark(%d, 4); arm(); import rmod as scratchm%d; disarm(); error(\"rt-imp-%d\")", id, i, i)
+			fp.Effective = fmt.Sprintf("mark(%d, 4)", id)
+		case 13:
+			// the piece imports a module whose body always fails half-way
+			fp.Fault = "runtime"
+			fp.Src = fmt.Sprintf("mark(%d, 4); import badcfg as scratchb%d; mark(%d, 5)", id, i, id+1)
+			fp.Effective = fmt.Sprintf("mark(%d, 4)", id)
 		case 11:
 			// rejected piece whose block-scoped variable shadows a global
 			fp.Fault = "compile-undefined"
@@ -358,6 +372,87 @@ func genSession(g, f *sim.Stream, tier string) (pieces []*replPiece, finalExpr s
 	return out, finalExpr
 }
 
+// c18Extras weaves statements about host-provided data globals and about
+// imported modules into the generated program (in order, at seeded positions).
+func c18Extras(g *sim.Stream, stmts []Stmt) []Stmt {
+	var extra []Stmt
+	id := 7000
+	mark := func(expr string) Stmt {
+		id++
+		return Stmt{Src: fmt.Sprintf("mark(%d, %s)", id, expr)}
+	}
+	if g.Chance(1, 3) {
+		// globals the host supplied (risor.WithGlobals) and the script rebinds
+		for i, n := 0, g.Range(2, 6); i < n; i++ {
+			switch g.Intn(7) {
+			case 0:
+				extra = append(extra, Stmt{Src: fmt.Sprintf("hcount = hcount + %d", g.Range(1, 9))})
+			case 1:
+				extra = append(extra, Stmt{Src: fmt.Sprintf("hcount += %d", g.Range(1, 9))})
+			case 2:
+				extra = append(extra, Stmt{Src: "hcount++"})
+			case 3:
+				extra = append(extra, Stmt{Src: fmt.Sprintf("htag = htag + \"%c\"", 'a'+rune(g.Intn(6)))})
+			case 4:
+				extra = append(extra, mark("hcount"))
+			case 5:
+				extra = append(extra, Stmt{Src: "emits(htag)"})
+			default:
+				extra = append(extra, Stmt{Src: fmt.Sprintf("hlist = hlist + [%d]", g.Intn(9))}, mark("len(hlist)"))
+			}
+		}
+	}
+	if g.Chance(1, 3) {
+		// modules: one whose body can be made to fail once (by a fault piece), one
+		// whose body always fails half-way
+		if g.Bool() {
+			extra = append(extra, Stmt{Src: "func impb() { import badcfg; return badcfg.late }", Defines: []string{"impb"}})
+			for i, n := 0, g.Range(1, 3); i < n; i++ {
+				extra = append(extra, mark("try(impb, func(e) { return -1 })"))
+			}
+		}
+		if g.Bool() {
+			switch g.Intn(3) {
+			case 0:
+				extra = append(extra, Stmt{Src: "import rmod"})
+			case 1:
+				extra = append(extra, Stmt{Src: "import rmod as rmod"})
+			default:
+				extra = append(extra, Stmt{Src: "from rmod import get as rget, bump as rbump\nimport rmod"})
+			}
+			for i, n := 0, g.Range(1, 4); i < n; i++ {
+				switch g.Intn(3) {
+				case 0:
+					extra = append(extra, mark("rmod.get()"))
+				case 1:
+					extra = append(extra, Stmt{Src: "rmod.bump()"}, mark("rmod.n"))
+				default:
+					extra = append(extra, mark("[rmod.first, rmod.second]"))
+				}
+			}
+		}
+	}
+	if len(extra) == 0 {
+		return stmts
+	}
+	// merge, keeping both orders
+	var out []Stmt
+	i, j := 0, 0
+	for i < len(stmts) || j < len(extra) {
+		if j >= len(extra) || (i < len(stmts) && g.Chance(len(stmts)-i, len(stmts)-i+len(extra)-j)) {
+			out = append(out, stmts[i])
+			i++
+		} else {
+			out = append(out, extra[j])
+			j++
+		}
+	}
+	return out
+}
+
+const c18Rmod = "n := 0\nfirst := 1\nmfail()\nsecond := 2\nfunc get() { return first + second }\nfunc bump() { n = n + 1; return n }\n"
+const c18Badcfg = "early := 1\n[1][5]\nlate := 2\n"
+
 func hostFailBuiltin() *object.Builtin {
 	return object.NewBuiltin("hfail", func(ctx context.Context, args ...object.Object) object.Object {
 		return object.Errorf("host failure")
@@ -394,14 +489,36 @@ func runC18(rc *fw.RunCtx) {
 
 	mk := func() (*Host, *risor.Config, map[string]bool) {
 		h := &Host{}
+		armed := false
 		extra := map[string]any{
 			"mark": h.Recorder("mark"), "emit": h.RecorderRet("emit", 1), "emits": h.Recorder("emits"),
 			"hfail": hostFailBuiltin(), "hpanic": hostPanicBuiltin(),
+			// data globals supplied by the host, which the script may rebind
+			"hcount": 0, "htag": "t", "hlist": []any{1, 2},
+			"arm":    object.NewBuiltin("arm", func(ctx context.Context, args ...object.Object) object.Object { armed = true; return object.Nil }),
+			"disarm": object.NewBuiltin("disarm", func(ctx context.Context, args ...object.Object) object.Object { armed = false; return object.Nil }),
+			"mfail": object.NewBuiltin("mfail", func(ctx context.Context, args ...object.Object) object.Object {
+				if armed {
+					armed = false
+					return object.Errorf("module body failed")
+				}
+				return object.Nil
+			}),
 		}
-		cfg := risor.NewConfig(baseOpts(extra)...)
+		var gnames []string
+		for k := range baseGlobals(extra) {
+			gnames = append(gnames, k)
+		}
+		sort.Strings(gnames)
+		mfs := fstest.MapFS{"rmod.risor": &fstest.MapFile{Data: []byte(c18Rmod)}, "badcfg.risor": &fstest.MapFile{Data: []byte(c18Badcfg)}}
+		imp := importer.NewFSImporter(importer.FSImporterOptions{GlobalNames: gnames, SourceFS: mfs, Extensions: []string{".risor"}})
+		cfg := risor.NewConfig(append(baseOpts(extra), risor.WithImporter(imp))...)
 		skip := map[string]bool{}
 		for _, n := range cfg.GlobalNames() {
 			skip[n] = true
+		}
+		for _, n := range []string{"hcount", "htag", "hlist"} {
+			delete(skip, n)
 		}
 		return h, cfg, skip
 	}
